@@ -647,6 +647,14 @@ def preload() -> None:
     import tealer.printers.all_printers  # noqa
     import tealer.detectors.all_detectors  # noqa
     import pathlib, inspect, traceback  # noqa
+    # imported lazily by prettytable when a listing is printed (found by diffing sys.modules over a
+    # session that walks the whole CLI vocabulary): a child that compiles a module the first time
+    # starts the next operation from another heap than one that loads it from the cache
+    for name in ("wcwidth", "secrets"):
+        try:
+            __import__(name)
+        except ImportError:
+            pass
 
 
 def run_session(scratch: str) -> None:
